@@ -70,6 +70,33 @@ var Meta = map[string]PropMeta{
 		Quick:     q(400, 50*time.Second),
 		Thorough:  q(20000, 15*time.Minute),
 	},
+	"C10": {
+		Level:     "exploration",
+		Technique: "deterministic simulation: real client and daemon in all arrangements with -n; snapshot invariant on the destination evaluated at scheduler steps and at the end; wire-history monitor decodes the sender's stream and requires it to consist of file list, index echoes and phase markers only",
+		Rule:      "source/destination pairs containing regular files, directories, symlinks, fifos, sockets and devices in every update situation (missing, different, same, wrong type), random option subsets plus -n/--dry-run (a third with --delete and extraneous entries), arrangements A1-A4. Oracle: full snapshot (names, types, content hash, mode, mtime ns, link target, rdev, owner) identical before/after and at every 8th scheduler step; session succeeds; sender stream carries no sum head, token or literal. Non-trivial = at least one file index was requested (echoed)",
+		Assumptions: []string{"A4: no wire tap (io.Pipe inside the code under test), snapshot oracle only"},
+		Real:      realCommon, Stub: stubCommon,
+		Quick:     q(400, 50*time.Second),
+		Thorough:  q(20000, 15*time.Minute),
+	},
+	"C13": {
+		Level:     "exploration",
+		Technique: "deterministic simulation: real client and daemon in pull, push and local arrangements; seeded generation of trees and 0-4 plain-name rules given via --exclude/--include/-f; reference model of first-match-wins filter semantics as oracle on the destination entry set",
+		Rule:      "tree of up to 14 entries (depth <= 3), rules name files and directories in every position plus non-matching names; destination empty. Oracle: destination entry set == model selection (first matching rule decides; excluded directory takes its subtree; later siblings unaffected; include rules keep). 1 in 12 rules is a wildcard rule: then the session must fail with an error or produce rsync's glob selection, never crash, hang or select something else. Non-trivial = rules filtered out at least one entry (or a wildcard rule was rejected)",
+		Assumptions: []string{"model written from the property statement; anchored ('/name'), directory-only ('name/'), path ('dir/name') and '!' rules are outside the generated domain"},
+		Real:      realCommon, Stub: stubCommon,
+		Quick:     q(500, 50*time.Second),
+		Thorough:  q(30000, 15*time.Minute),
+	},
+	"C14": {
+		Level:     "exploration",
+		Technique: "deterministic simulation: the same (source, destination, option subset) is run through all five arrangements under the scheduled transport; deadlock detector and error returns expose desynchronisation; destinations are compared pairwise and against the reference model's entry set",
+		Rule:      "random subsets of {-r -l -p -t -g -o -D --devices --specials --no-D --no-l --no-p --no-t --no-g --no-o -c -I -n --delete -a} (+ --exclude) on a tree that always contains a symlink, fifo, socket, char device, nested and plain files; prior destination with up-to-date, stale and extraneous entries. Oracle: every arrangement succeeds (no protocol error, deadlock, crash); destination entry set == model (created types per option, --delete, -n, exclude); destinations of A2..A4 equal A1's on content, link target, rdev, perms (+ file mtime with -t, owner/group with -o/-g). Non-trivial = >= 2 arrangements compared",
+		Assumptions: []string{"runs as root so devices can be created", "sampled option subsets (2^20 x arrangements is not enumerated)"},
+		Real:      realCommon, Stub: stubCommon,
+		Quick:     q(150, 60*time.Second),
+		Thorough:  q(8000, 20*time.Minute),
+	},
 	"C16": {
 		Level:     "exploration",
 		Technique: "deterministic simulation + wire-history monitor: literal bytes and block references counted in the real sender's token stream (decoded by the reference protocol-27 parser), with the real generator's signatures and with reference signatures at other block sizes; chunked scheduled transport and short-reading simulated disk",
